@@ -51,7 +51,7 @@ pub enum HEvent {
 	/// `Persist::persist_new_channel`
 	PersistNew { node: usize, chan: ChannelId, update_id: u64, in_progress: bool },
 	/// `Persist::update_persisted_channel`; `update_id` None = chain-sync persist
-	PersistUpdate { node: usize, chan: ChannelId, update_id: Option<u64>, monitor_latest: u64, steps: Vec<String>, in_progress: bool },
+	PersistUpdate { node: usize, chan: ChannelId, update_id: Option<u64>, monitor_latest: u64, steps: Vec<String>, in_progress: bool, debug: String },
 	/// harness called `channel_monitor_updated`
 	PersistCompleted { node: usize, chan: ChannelId, update_id: u64 },
 	Archive { node: usize, chan: ChannelId },
@@ -480,6 +480,7 @@ impl Persist<TestChannelSigner> for RecPersister {
 			monitor_latest: latest,
 			steps: update.map(|u| update_step_kinds(u)).unwrap_or_default(),
 			in_progress,
+			debug: update.map(|u| format!("{:?}", u)).unwrap_or_default(),
 		});
 		if in_progress {
 			ChannelMonitorUpdateStatus::InProgress
